@@ -1,5 +1,6 @@
 import PhysisModel.Proofs.ExcelIndex
 import PhysisModel.Generated.ExcelCodes
+import PhysisModel.Proofs.ExcelRootList
 /-!
 # C05 — Excel sheets decode to the cell values stored in them
 
@@ -217,6 +218,31 @@ two entries; `exSchema` has a page 0 -/
 example : ([0x49, 0x74, 0x65, 0x6d] : Bytes) ∈
     ([([0x41], 1), ([0x49, 0x74, 0x65, 0x6d], 2)] : List (Bytes × Int)).map (·.1) ∧
     0 < exSchema.pages.length := by decide
+
+/-- `EXL::from_existing` on an encoded root list (`EXLT,<version>` then `<name>,<id>` lines)
+returns the version and the entries in order; hence `get_all_sheet_names` returns exactly the
+listed names. -/
+theorem c05_sheet_names (v : Int) (es : List (Bytes × Int)) (h : WFrootList v es) :
+    ExcelRootList.fromExisting (encodeRootList v es) = ⟨v, es⟩ ∧
+    allSheetNames (ExcelRootList.fromExisting (encodeRootList v es)).entries = es.map (·.1) := by
+  have := Proofs.ExcelRootList.rootList_roundtrip v es h
+  exact ⟨this, by rw [this]; rfl⟩
+
+/-- The two steps composed: with `exd/root.exl` = the encoded root list, a listed sheet name is
+looked up under `exd/<lower-case name>.exh`, an unlisted one is not looked up at all. -/
+theorem c05_sheet_lookup_rootlist (extract : Bytes → Option Bytes) (v : Int)
+    (es : List (Bytes × Int)) (h : WFrootList v es) (name : Bytes) :
+    readExcelSheetHeader extract (ExcelRootList.fromExisting (encodeRootList v es)).entries name =
+      if name ∈ es.map (·.1) then (extract (headerPath name)).bind Exh.fromExisting else none := by
+  rw [(c05_sheet_names v es h).1]
+  have := c05_sheet_lookup extract es name
+  split
+  · rename_i hin; exact this.1 hin
+  · rename_i hin; exact this.2 hin
+
+/-- non-vacuity: a root list with a negative id, a name containing `/`, and one starting lower-case -/
+example : WFrootList 2 [([0x41, 0x2f, 0x62], -1), ([0x69, 0x74, 0x65, 0x6d], 2147483647)] := by
+  decide
 
 /-- (T2) The model's code tables are the compiled reader's: the harness pushes **every** u16 /
 u8 through the compiled `EXH::from_existing` as a column-type / language code and dumps the accepted
